@@ -81,7 +81,23 @@ class C01(CacheProp):
             " Plus, as search only: the concurrent stress harness (2..64 goroutines, all calls) with the oracle 'a Get never returns a value that was Set under another key'.")
 
     def gen(self, rng, n, ctx):
-        return super().gen(rng, n, ctx) + keyhash_cases(rng, max(3, n // 25))
+        cases = super().gen(rng, n, ctx)
+        # two keys sharing the primary hash, the resident one with a TTL that elapses without being swept, the accounting
+        # made to forget the hash (a Del of the twin), then the twin is Set: the dead entry's conflict hash must still
+        # keep the twin's value apart
+        pd = ctx.probe_data or {"item_size": 56, "start": cachegen.START_DEFAULT}
+        g = cachegen.Gen(rng, pd)
+        for j in range(max(2, n // 40)):
+            h = cachegen.mix(1200 + j)
+            bdur = rng.choice([1, 5])
+            ttl = rng.choice([10 ** 9, 2 * 10 ** 9])
+            ops = [["set", h, 10, 11, 30, ttl], ["tok"], ["wait"], ["del", h, 11], ["tok"], ["wait"],
+                   ["tick", ttl + rng.choice([1, 10 ** 9])], ["get", h, 10], ["set", h, 11, 12, 30, rng.choice([0, 60 * 10 ** 9])],
+                   ["tok"], ["tok"], ["wait"], ["get", h, 10], ["get", h, 11], ["ttl", h, 10], ["iter"], ["dump"],
+                   ["sweep"], ["get", h, 10], ["get", h, 11], ["dump"]]
+            cases.append(cachegen.Case("ce%d" % j, "cache", g.header(1000, 8, True, True, 0, bdur), ops,
+                                       tags=["profile:collide"]))
+        return cases + keyhash_cases(rng, max(3, n // 25))
 
     def annotate(self, case, impl_lines):
         if case.comp != "keyhash":
